@@ -193,6 +193,10 @@ func (c *canon) stmt(s ast.Stmt) []string {
 		if tok == ":=" {
 			tok = "="
 		}
+		// x += 1 and x++ are one statement
+		if (tok == "+=" || tok == "-=") && len(r) == 1 && r[0] == "1" && len(l) == 1 {
+			return []string{l[0] + tok[:1] + tok[:1]}
+		}
 		return []string{strings.Join(l, ",") + tok + strings.Join(r, ",")}
 	case *ast.IncDecStmt:
 		return []string{c.expr(x.X) + x.Tok.String()}
